@@ -1113,6 +1113,10 @@ impl<'a> Session<'a> {
             if loc.ends_with("retrier.rs") && msg.starts_with("assertion") {
                 self.report("C13", "second_retry_loop_started", format!("{at}: panic at {loc}: {msg}"));
             } else if !msg.contains("PoisonError") {
+                if loc.ends_with("retrier.rs") {
+                    // the retry machinery itself died: nothing pending is ever delivered again
+                    self.report("C13", "retry_task_panicked", format!("{at}: panic at {loc}: {msg}"));
+                }
                 self.report("C14", "client_abort", format!("{at}: panic at {loc}: {msg}"));
             }
         }
